@@ -704,6 +704,13 @@ func emitFacts(v val) {
 		for _, s := range v.L {
 			emitStringFacts(s)
 		}
+	case "t":
+		for _, kv := range v.L {
+			if p := strings.SplitN(kv, "=", 2); len(p) == 2 {
+				emitStringFacts(kit.Dec(p[0]))
+				emitStringFacts(kit.Dec(p[1]))
+			}
+		}
 	}
 }
 
